@@ -120,7 +120,7 @@ def _run_path(res, cfg):
     xr = rt.tensor(xv, requires_grad=True)
     ro = core.outcome(lambda: _run(symtorch.real(), cfg, xr))
     if so[0] != ro[0] or (so[0] == 'raise' and so[1] != ro[1]):
-        res.status = 'error'; res.trace = 'symbolic outcome %r differs from real torch outcome %r' % (so[:3], ro[:3]); return res
+        res.status = 'error'; res.trace = 'symbolic outcome %r differs from real torch outcome %r' % (core.brief(so), core.brief(ro)); return res
     if so[0] == 'raise':
         res.status = 'skipped'; res.notes.append('layer raises %s' % so[1]); return res
     gv = rng.uniform(-1, 1, size=tuple(Z.shape))
